@@ -424,9 +424,13 @@ func runScenario(t *testing.T, sc scenario) []result {
 			})
 		}
 		stopLive()
-		if err := raw.Stop(ctx); err != nil {
-			t.Fatal(err)
+		// a wedged step may have used up ctx: the store is stopped with a context of its own, and a failing
+		// Stop is not the driver's business (the steps' own observations are what the oracle judges)
+		sctx, scancel := context.WithTimeout(context.Background(), time.Hour)
+		if err := raw.Stop(sctx); err != nil {
+			t.Log("store stop:", err)
 		}
+		scancel()
 	})
 	return results
 }
